@@ -207,6 +207,7 @@ func (m *mux) Open(id ConnID) (net.Conn, error) {
 
 func (m *mux) Close() error {
 	m.closeOnce.Do(func() {
+		verifHook("close.enter")
 		m.connLock.Lock()
 		defer m.connLock.Unlock()
 		for _, conn := range m.conns {
@@ -260,6 +261,7 @@ func (m *mux) write(id ConnID, buf []byte) (int, error) {
 			}
 			return 0, err
 		}
+		verifHook("write.afterHeader")
 
 		n, err = m.trunk.Write(data[:size])
 		if err != nil {
@@ -342,6 +344,7 @@ func (m *mux) reader() {
 			return
 		}
 
+		verifHook("reader.beforeQueue")
 		m.connLock.RLock()
 		conn, ok := m.conns[ConnID(cid)]
 		m.connLock.RUnlock()
@@ -385,6 +388,7 @@ func (c *conn) Read(buf []byte) (int, error) {
 		ok  bool
 	)
 
+	verifHook("read.beforeSelect")
 	select {
 	case err, ok = <-c.doneC:
 		if !ok || err == nil {
